@@ -558,7 +558,11 @@ func decodeTableInfo(data []byte, cfg reftable.Config) (res string) {
 	for _, t := range txs {
 		s = append(s, fmt.Sprint(t.tx))
 	}
-	return fmt.Sprintf("%d-%d:%s", rd.MinUpdateIndex(), rd.MaxUpdateIndex(), strings.Join(s, ","))
+	fs, hsz := 68, 24
+	if want == reftable.SHA256ID {
+		fs, hsz = 72, 28
+	}
+	return fmt.Sprintf("%d-%d:%s:%d", rd.MinUpdateIndex(), rd.MaxUpdateIndex(), strings.Join(s, ","), len(data)-fs-(hsz-1))
 }
 
 // canonical rendering of a snapshot: L=<ids>|<id>=<info>,...|files=<classes>
